@@ -4,6 +4,7 @@ import OapiVerif.Proofs.Form
 import OapiVerif.Gen.C12
 import OapiVerif.Proofs.Bodies
 import OapiVerif.Proofs.RespDefs
+import OapiVerif.Gen.MediaSwitch
 /-!
 C12 — Strict server delivers decoded requests and writes the declared responses.
 
@@ -161,6 +162,37 @@ theorem C12_supported_iff_media_class (E : Env) (ct : Str) (hc : ∀ c, E.isJson
           by_cases h4 : ct = textPlain
           · rw [if_pos h4]; simp [h4, w]
           · rw [if_neg h4]; simp [h, h1, h2, h3, h4]
+
+/-- The switch of `GenerateResponseDefinitions`, as translated from the source on every run, names a response content like
+the request-body switch names a body (its clauses stand in another order and there is no default flag): the same five media
+classes get a typed response, everything else is written from a reader. -/
+theorem C12_response_switch_translated (E : Env) (ct : Str) :
+    (evalSwitch E Gen.MediaSwitch.respSwitch ct).map (·.1) = (classify E ct).map (·.1) := by
+  have hform : multipartPrefix.isPrefixOf formUrl = false := by decide
+  unfold Gen.MediaSwitch.respSwitch classify
+  simp only [evalSwitch, Cond.holds]
+  have e1 : (decide (ct = w "application/json") = true) = (ct = appJson) := by simp [appJson]
+  have e4 : (decide (ct = w "application/x-www-form-urlencoded") = true) = (ct = formUrl) := by simp [formUrl]
+  have e5 : (decide (ct = w "text/plain") = true) = (ct = textPlain) := by simp [textPlain]
+  have e3 : ((w "multipart/").isPrefixOf ct = true) = (multipartPrefix.isPrefixOf ct = true) := rfl
+  simp only [e1, e4, e5, e3]
+  by_cases h1 : ct = appJson
+  · rw [if_pos h1, if_pos h1]; rfl
+  · rw [if_neg h1, if_neg h1]
+    by_cases h2 : E.isJson ct = true
+    · rw [if_pos h2, if_pos h2]
+    · rw [if_neg h2, if_neg h2]
+      by_cases h4 : ct = formUrl
+      · have h3 : ¬ multipartPrefix.isPrefixOf ct = true := by rw [h4, hform]; simp
+        rw [if_pos h4, if_neg h3, if_pos h4]
+      · rw [if_neg h4]
+        by_cases h3 : multipartPrefix.isPrefixOf ct = true
+        · rw [if_pos h3, if_pos h3]
+        · rw [if_neg h3, if_neg h3, if_neg h4]
+          by_cases h5 : ct = textPlain
+          · rw [if_pos h5, if_pos h5]
+          · rw [if_neg h5, if_neg h5]
+            simp
 
 end OapiVerif.Bodies
 
